@@ -34,6 +34,9 @@ def cells():
         for mid, m in scalar_muts:
             out.append(("local-%s-%s" % (ty, mid), prog("", "", "(decl c %s c (lit 1)) (print (e (var c))) %s (print (e (var c)))" % (ty, m)), mid))
             out.append(("global-%s-%s" % (ty, mid), prog("(decl c %s c (lit 1))" % ty, "", "(print (e (var c))) %s (print (e (var c)))" % m), mid))
+            out.append(("static-%s-%s" % (ty, mid), prog("", "(func f void (params) ((decl cs %s c (lit 1)) (print (e (var c))) %s (print (e (var c)))))" % (ty, m),
+                                                         "(expr (call f))"), mid))
+            out.append(("staticmain-%s-%s" % (ty, mid), prog("", "", "(decl cs %s c (lit 1)) (print (e (var c))) %s (print (e (var c)))" % (ty, m)), mid))
             out.append(("param-%s-%s" % (ty, mid), prog("", "(func f void (params (%s c - c)) ((print (e (var c))) %s (print (e (var c)))))" % (ty, m),
                                                         "(expr (call f (lit 1)))"), mid))
     elem_muts = [("elem_assign", "(assign (idx a (lit 1)) (lit 9))"), ("elem_compound", "(compound add (idx a (lit 1)) (lit 1))"),
@@ -73,6 +76,19 @@ def raw_cases():
         c("const-struct-via-pointer", "    const P s = {1, 2};\n    P* p = &s;\n    p->x = 5;\n    println(s.x);", "error", finding="const_addr_mutable"),
         c("ptr-to-const-struct-member", "    P s = {1, 2};\n    const P* p = &s;\n    p->x = 5;\n    println(s.x);", "error", "",
           finding="ptr_to_const_struct_member"),
+        c("const-double-array-elem", "    const double[3] a = [1.5, 2.5, 3.5];\n    a[1] = 9.5;\n    println(a[1]);", "error", "", finding="const_float_array_elem"),
+        c("ptr-to-const-index-store", "    int[3] d = [1, 2, 3];\n    const int* p = &d[0];\n    p[1] = 9;\n    println(d[1]);", "error", "", finding="ptr_to_const_index_store"),
+        c("const-union-reassign", "    const U u = 5;\n    u = 7;\n    println(u);", "error", "", finding="const_union_reassign", pre="typedef U = int | string;\n"),
+        c("const-struct-from-call", "    const P p = mk();\n    p.y = 5;\n    println(p.y);", "error", "", finding="const_struct_from_call_member",
+          pre="P mk() { P p; p.x = 1; p.y = 2; return p; }\n"),
+        c("ptr-to-const-param-deref", "    int d = 3;\n    f(&d);\n    println(d);", "error", "", finding="const_ptr_param_deref", pre="void f(const int* q) { *q = 9; }\n"),
+        c("const-float", "    const float x = 1.5;\n    x = 2.5;\n    println(x);", "error", ""),
+        c("const-string", "    const string s = \"a\";\n    s = \"b\";\n    println(s);", "error", ""),
+        c("const-struct-whole-assign", "    const P a = {1, 2};\n    P b = {3, 4};\n    a = b;\n    println(a.x);", "error", ""),
+        c("const-array-whole-assign", "    const int[3] a = [1, 2, 3];\n    int[3] b = [4, 5, 6];\n    a = b;\n    println(a[0]);", "error", ""),
+        c("const-bool", "    const bool t = true;\n    t = false;\n    println(t);", "error", ""),
+        c("const-char", "    const char ch = 'a';\n    ch = 'b';\n    println(ch);", "error", ""),
+        c("static-const-string", "    static const string s = \"ab\";\n    s = \"cd\";\n    println(s);", "error", ""),
     ]
 
 
@@ -101,7 +117,7 @@ def main(a):
     rnd = [gen_core.gen_program(a.seed, 91, k, c.gates, size=25, features={"consts": True})[0] for k in range(n)]
     c.suite("random-const-rich", rnd, nontrivial=lambda r: hash(r.sexp) if r.status == "exit1:const" else None)
     return c.finish(
-        rule="matrix: const kinds (local/global/parameter scalar of 9 types, local/global arrays of 4 types, struct) x "
+        rule="matrix: const kinds (local/global/static-local/parameter scalar of 9 types, local/global arrays of 4 types, struct) x "
              "mutation paths (=, +=, *=, x++, --x, a[i]=, a[i]+=, a[i]++, a[var]=, s.m=, s.m+=, s.m++), each cell one "
              "program expected to print the value once and stop with an error; pointer/reference programs with the "
              "property's own oracle; random core programs with ~30% const declarations. non-trivial = distinct cell / "
